@@ -245,6 +245,13 @@ func runFIORead(c *Ctx) {
 					bad = bad[:r.Intn(len(bad))]
 				case 4: // header digits / keyword
 					bad[r.Intn(min(len(bad), 10))] = Pick(r, []byte("0 9obj\nR-"))
+					// Model/Scan.lean does not model strconv's range error (documented there:
+					// "harness tokens stay below 300 digits"): a damaged digit of a real near
+					// MaxFloat64 (309 digits) can leave the float64 range
+					if fioHugeNumberAt(bad, 0, 24) {
+						c.Stat("rdobj_damaged_skipped_hugenum")
+						continue
+					}
 				case 5: // /Length removed
 					bad = bytes.Replace(bad, []byte("/Length"), []byte("/Lenght"), 1)
 				case 6: // CR before endstream
@@ -324,4 +331,22 @@ func runFIORead(c *Ctx) {
 		}
 	}
 	_ = io.EOF
+}
+
+// fioHugeNumberAt reports whether a run of at least 300 digits starts within data[from:to].
+func fioHugeNumberAt(data []byte, from, to int) bool {
+	for i := from; i < to && i < len(data); i++ {
+		if data[i] < '0' || data[i] > '9' {
+			continue
+		}
+		j := i
+		for j < len(data) && data[j] >= '0' && data[j] <= '9' {
+			j++
+		}
+		if j-i >= 300 {
+			return true
+		}
+		i = j
+	}
+	return false
 }
